@@ -15,6 +15,7 @@ from graphql import (
     InlineFragmentNode,
     build_schema,
     get_named_type,
+    is_abstract_type,
     parse,
     type_from_ast,
 )
@@ -78,7 +79,16 @@ def generate_forked(case, scratch):
 # ------------------------------------------------------------------ own closures
 
 
-def enums_of_selection(schema, fragments, selection_set, parent, acc, seen_frags):
+def _possible(schema, t):
+    if is_abstract_type(t):
+        return {x.name for x in schema.get_possible_types(t)}
+    return {t.name}
+
+
+def enums_of_selection(schema, fragments, selection_set, parent, acc, seen_frags, live=None):
+    """enums of the result fields under `selection_set`.  With `live` (the set of runtime types the position can
+    have) branches whose type condition excludes every such type are skipped: no response can carry them and no
+    generated model stands for them (used for the LOWER bound); without it every branch counts (UPPER bound)."""
     for sel in selection_set.selections:
         if isinstance(sel, FieldNode):
             if sel.name.value == "__typename" or not hasattr(parent, "fields"):
@@ -88,17 +98,29 @@ def enums_of_selection(schema, fragments, selection_set, parent, acc, seen_frags
             if isinstance(named, GraphQLEnumType):
                 acc.add(named.name)
             if sel.selection_set is not None:
-                enums_of_selection(schema, fragments, sel.selection_set, named, acc, seen_frags)
+                enums_of_selection(schema, fragments, sel.selection_set, named, acc, seen_frags,
+                                   None if live is None else _possible(schema, named))
         elif isinstance(sel, InlineFragmentNode):
             t = schema.type_map[sel.type_condition.name.value] if sel.type_condition else parent
-            enums_of_selection(schema, fragments, sel.selection_set, t, acc, seen_frags)
+            sub = None if live is None else live & _possible(schema, t)
+            if sub is not None and not sub:
+                continue
+            enums_of_selection(schema, fragments, sel.selection_set, t, acc, seen_frags, sub)
         elif isinstance(sel, FragmentSpreadNode):
             name = sel.name.value
-            if name in seen_frags:
-                continue
-            seen_frags.add(name)
             fr = fragments[name]
-            enums_of_selection(schema, fragments, fr.selection_set, schema.type_map[fr.type_condition.name.value], acc, seen_frags)
+            t = schema.type_map[fr.type_condition.name.value]
+            if live is None:
+                if name in seen_frags:
+                    continue
+                seen_frags.add(name)
+                enums_of_selection(schema, fragments, fr.selection_set, t, acc, seen_frags)
+            else:
+                sub = live & _possible(schema, t)
+                if not sub or (name, frozenset(sub)) in seen_frags:
+                    continue
+                seen_frags.add((name, frozenset(sub)))
+                enums_of_selection(schema, fragments, fr.selection_set, t, acc, seen_frags, sub)
 
 
 def closures(schema, doc):
@@ -139,7 +161,8 @@ def closures(schema, doc):
 
     used_result, used_frags = set(), set()
     for op in ops.values():
-        enums_of_selection(schema, fragments, op.selection_set, schema.get_root_type(op.operation), used_result, used_frags)
+        root = schema.get_root_type(op.operation)
+        enums_of_selection(schema, fragments, op.selection_set, root, used_result, used_frags, live={root.name})
     all_frag_result = set(used_result)
     for name, fr in fragments.items():
         enums_of_selection(schema, fragments, fr.selection_set, schema.type_map[fr.type_condition.name.value], all_frag_result, set())
